@@ -195,6 +195,10 @@ func tryParseGroup(node *yaml.Node, offsetLine, offsetColumn int, contentLines [
 			if e.val.Kind == yaml.SequenceNode {
 				rules = e
 			}
+			if e.val.Alias != nil && e.val.Alias.Kind == yaml.SequenceNode {
+				// `rules: *anchor`, the list of rules is defined elsewhere.
+				rules = yamlMap{key: e.key, val: e.val.Alias}
+			}
 		}
 	}
 	return g, rules, g.Name != "" && rules.key != nil
